@@ -148,6 +148,8 @@ OBJS = {
     "pickB_u2": (lambda: mn.PickB(pick=mn.U2(b="y")), "m_ns.PickB"),
     "thing1": (lambda: s1.Thing(alpha="A", size=3), "m_same1.Thing"),
     "thing2": (lambda: s2.Thing(beta="B", size="big"), "m_same2.Thing"),
+    "drawing1": (lambda: s1.Drawing1(shape=s1.Circle(label="c1", r=2)), "m_same1.Drawing1"),
+    "drawing2": (lambda: s2.Drawing2(shape=s2.Circle(label="c2", radius=2.5)), "m_same2.Drawing2"),
     "dup1": (lambda: s1.Dup(first="one"), "m_same1.Dup"),
     "dup2": (lambda: s2.Dup(first="two", second=2), "m_same2.Dup"),
     "zoo": (
@@ -288,6 +290,8 @@ _x("hw_order_undeclared", "m_basic.Order", """<order xmlns="urn:basic" number="9
 _x("hw_anybox_undeclared", "m_wild.AnyBox", """<w:anyBox xmlns:w="urn:w"><w:head>h</w:head><free b="z:val" c="x:dog">text</free></w:anyBox>""")
 _x("hw_thing1", "m_same1.Thing", """<thing xmlns="urn:s1" size="4"><alpha>A</alpha></thing>""")
 _x("hw_thing2", "m_same2.Thing", """<thing xmlns="urn:s2" size="L"><beta>B</beta></thing>""")
+_x("hw_drawing1", "m_same1.Drawing1", """<drawing1 xmlns="urn:shapes" xmlns:xsi="http://www.w3.org/2001/XMLSchema-instance"><shape xsi:type="circle"><label>a</label><r>1</r></shape></drawing1>""")
+_x("hw_drawing2", "m_same2.Drawing2", """<drawing2 xmlns="urn:shapes" xmlns:xsi="http://www.w3.org/2001/XMLSchema-instance"><shape xsi:type="circle"><label>b</label><radius>1.5</radius></shape></drawing2>""")
 _x("hw_dup_noclass", None, """<dup xmlns="urn:dup"><first>f</first><second>2</second></dup>""")
 _x("hw_thing1_noclass", None, """<thing xmlns="urn:s1" size="4"><alpha>A</alpha></thing>""")
 _x("hw_thing2_noclass", None, """<thing xmlns="urn:s2"><beta>B</beta></thing>""")
